@@ -2,7 +2,7 @@
    kind = property*100 + sub-model.  [run] = what the model says the implementation must
    output on this input; [mon] = the property's monitor applied to the implementation's own
    observed output. *)
-From RainV Require Import Lib Tier Geometry SectionIO Meta.
+From RainV Require Import Lib Tier Geometry SectionIO Meta Paths.
 
 Definition run (kind : Z) (inp : list Z) : list Z :=
   match kind with
@@ -11,6 +11,10 @@ Definition run (kind : Z) (inp : list Z) : list Z :=
   | 203 => run_section_io inp
   | 204 => run_create_jobs inp
   | 601 => run_accept inp
+  | 701 => run_accept_paths inp
+  | 702 => run_open_path inp
+  | 703 => run_tar_target inp
+  | 704 => run_str_funcs inp
   | 1601 => run_tier true inp
   | _ => [-999]
   end.
@@ -22,6 +26,10 @@ Definition mon (kind : Z) (inp obs : list Z) : bool :=
   | 203 => mon_section_io inp obs
   | 204 => mon_create_jobs inp obs
   | 601 => mon_accept inp obs
+  | 701 => mon_accept_paths inp obs
+  | 702 => mon_open_path inp obs
+  | 703 => mon_tar_target inp obs
+  | 704 => list_eqb_Z (run_str_funcs inp) obs
   | 1601 => mon_tier inp obs
   | _ => false
   end.
